@@ -467,6 +467,12 @@ func (fc *FuncCtx) callFunction(x *ssa.Call, fn *ssa.Function, args []Val, bindi
 	var ss *SiteSpec
 	if fc.C != nil {
 		ss = fc.C.Sites[site]
+		if ss == nil && fn.Signature.Recv() != nil {
+			// runtime contracts do not know the name of the user's parser type: "call @.method n ..."
+			if i := strings.Index(site, "."); i >= 0 {
+				ss = fc.C.Sites["@"+site[i:]]
+			}
+		}
 	}
 	sig := fn.Signature
 	nres := sig.Results().Len()
